@@ -110,7 +110,7 @@ fn c01_range_contains() {
     kani::cover!(!member && matches!(e, Some((x, false)) if x == k), "k is the exclusive end");
 }
 
-// @props C01 C06
+// @props C01 C06:thorough
 // @fns KRange::intersection
 // @bound both ranges: every representation, all i64 bounds with exclusive ends representable
 #[kani::proof]
